@@ -427,6 +427,234 @@ def l3_case(chk, ctx, c, rng):
         _fail(chk, 'inputs-modified', 'a likelihood/residual function changed the values or the mask of its arguments', inp)
     chk.stat('l3:pos_ok=%s' % pos_ok); chk.stat('l3:corner_class=%s' % corner)
 
+
+# ------------------------------------------------------------------ history-aware cases (state carried between calls)
+# The property is about the CURRENT contents of the two spectra at every call.  A sequence re-uses the same model / data
+# objects over many evaluations with in-place edits in between (mask set / cleared, counts changed through __setitem__,
+# through .data and through `*=`), alternates between two data objects of equal shape, and mixes all entry points.
+# Every evaluation is compared (L3) with the numpy oracle computed from what the objects contain *now* -- the oracle never
+# calls into dadi.Inference, so it cannot disturb or refresh any hidden state -- sometimes also with the same call on
+# fresh deep copies, and (K) with the Lean model fed the current contents.
+HIST_FNS = ['ll', 'll_per_bin', 'll_multinom', 'optimal_sfs_scaling', 'linear_Poisson_residual', 'Anscombe_Poisson_residual',
+            'll_multinom_per_bin', 'optimally_scaled_sfs']
+HIST_P = [0.26, 0.18, 0.18, 0.08, 0.08, 0.08, 0.08, 0.06]
+HIST_EDITS = ['none', 'dmask', 'dunmask', 'dset', 'ddata', 'dimul', 'mmask', 'munmask', 'mset', 'mimul', 'swap']
+HIST_EP = [0.08, 0.2, 0.1, 0.14, 0.1, 0.05, 0.08, 0.05, 0.08, 0.04, 0.08]
+
+def gen_history(rng, tier):
+    """a sequence as plain data (replayable): initial contents + steps"""
+    nd = int(rng.choice([1, 2, 3], p=[0.45, 0.4, 0.15]))
+    lo, hi = {1: (4, 12), 2: (3, 6), 3: (3, 4)}[nd]
+    shape = tuple(int(rng.integers(lo, hi + 1)) for _ in range(nd))
+    n = int(np.prod(shape))
+    tot = np.indices(shape).sum(axis=0)
+    mv = gen.coarse(rng.uniform(0.3, 3.0, shape) / (1.0 + tot) * float(np.exp(rng.uniform(-1, 3))), 24)
+    theta = float(np.exp(rng.uniform(0, 3)))
+    def data():
+        dv = rng.poisson(mv * theta).astype(float)
+        if rng.random() < 0.4:
+            dv = dv * rng.uniform(0.3, 1.0, shape)            # projected
+        return gen.coarse(dv, 24)
+    def mask(p):
+        m = rng.random(shape) < p
+        m.flat[0] = True; m.flat[-1] = True                      # corners stay masked throughout a sequence
+        return m
+    folded = bool(rng.random() < 0.2)
+    nsteps = int(rng.integers(5, 11)) if tier == 'quick' else int(rng.integers(6, 16))
+    steps = []
+    for _ in range(nsteps):
+        ed = str(rng.choice(HIST_EDITS, p=HIST_EP))
+        k = int(rng.integers(1, n - 1))                          # never a corner
+        val = float(gen.round_sig(float(rng.choice([0.0, 1.0, 2.0, 7.0, float(rng.uniform(0.1, 9))])), 20))
+        fac = float(rng.choice([0.5, 2.0, 3.0]))
+        steps.append(dict(edit=ed, idx=k, value=val, factor=fac, fn=str(rng.choice(HIST_FNS, p=HIST_P)),
+                          also_copies=bool(rng.random() < 0.25)))
+    mk = None if rng.random() < 0.6 else float(gen.round_sig(float(np.exp(rng.uniform(-3, 1))), 20))
+    return dict(kind='history', shape=list(shape), model=mv.ravel().tolist(), model_mask=mask(0.1).ravel().astype(int).tolist(),
+                data=data().ravel().tolist(), data_mask=mask(0.15).ravel().astype(int).tolist(),
+                data2=data().ravel().tolist(), data2_mask=mask(0.15).ravel().astype(int).tolist(),
+                data_folded=folded, resid_mask=mk, steps=steps)
+
+def fixed_histories():
+    """hand-made sequences, every run: the two edits the property is most sensitive to (mask a data entry, change a count)
+    between two evaluations on the same objects, for each of the likelihood entry points"""
+    out = []
+    base = dict(kind='history', shape=[4, 3], model=[9., .9, .5, .8, .6, .4, .5, .4, .3, .3, .2, 9.],
+                model_mask=[1] + [0] * 10 + [1], data=[0., 9., 4., 7., 5., 3., 6., 2., 0., 3., 1., 0.], data_mask=[1] + [0] * 10 + [1],
+                data2=[0., 5., 5., 5., 1., 1., 1., 2., 2., 3., 3., 0.], data2_mask=[1, 0, 0, 1, 0, 0, 0, 0, 1, 0, 0, 1],
+                data_folded=False, resid_mask=None)
+    for fn in ('ll', 'll_multinom', 'll_per_bin'):
+        for ed in ('dmask', 'dset', 'ddata', 'dimul', 'swap', 'mmask'):
+            st = [dict(edit='none', idx=3, value=0., factor=2., fn=fn, also_copies=False),
+                  dict(edit=ed, idx=3, value=2., factor=2., fn=fn, also_copies=False),
+                  dict(edit='dunmask', idx=3, value=2., factor=2., fn=fn, also_copies=False),
+                  dict(edit='none', idx=3, value=2., factor=2., fn='optimal_sfs_scaling', also_copies=True),
+                  dict(edit='dset', idx=7, value=11., factor=2., fn=fn, also_copies=False)]
+            out.append(dict(base, steps=st))
+    return out
+
+def apply_edit(st, M, Ds, active):
+    """in-place edit of the live objects; returns the index of the active data object"""
+    ed = st['edit']; D = Ds[active]
+    k = st['idx']
+    idx = np.unravel_index(k, M.shape)
+    if ed == 'dmask': D.mask[idx] = True
+    elif ed == 'dunmask': D.mask[idx] = False
+    elif ed == 'dset': D[idx] = st['value']               # __setitem__: also clears the mask of that entry
+    elif ed == 'ddata': D.data[idx] = st['value']         # through the bare array: mask untouched
+    elif ed == 'dimul': D *= st['factor']
+    elif ed == 'mmask': M.mask[idx] = True
+    elif ed == 'munmask': M.mask[idx] = False
+    elif ed == 'mset': M[idx] = max(st['value'], 0.125)   # the model stays positive
+    elif ed == 'mimul': M *= st['factor']
+    elif ed == 'swap': active = 1 - active
+    return active
+
+def oracle_resid(which, mv, mm, dv, dm, mk):
+    """(expected mask, entries with a defined value, expected values there) from the documented formulas"""
+    joint = ~mm & ~dm
+    tom = ((mv <= mk) & (dv <= mk)) if mk is not None else np.zeros(mv.shape, bool)
+    with np.errstate(all='ignore'):
+        if which == 'linear_Poisson_residual':
+            wm = ~joint | (mv < 0) | tom
+            v = ~wm & (mv > 0)
+            return wm, v, (mv[v] - dv[v]) / np.sqrt(mv[v])
+        wm = ~joint | (mv <= 0) | (dv <= 0) | tom
+        v = ~wm
+        tr = lambda x: x ** (2. / 3) - x ** (-1. / 3) / 9
+        return wm, v, 1.5 * (tr(mv[v]) - tr(dv[v])) / mv[v] ** (1. / 6)
+
+def hist_expect(dadi, fn, M, D, mk):
+    """what the property says `fn(M, D)` is, from the current contents; never calls dadi.Inference.
+    returns None (nothing to compare: degenerate) or a dict"""
+    Mf = M.fold() if (D.folded and not M.folded) else M
+    mv, mm = arrs(Mf); dv, dm = arrs(D)
+    joint = ~mm & ~dm
+    if not joint.any():
+        return None
+    if fn in ('ll', 'll_per_bin'):
+        want, vis, mag = oracle_ll(Mf, D)
+        if want is None: return None
+        t = np.zeros(mv.shape); t[vis] = poisson_terms(mv[vis], dv[vis])
+        return dict(scalar=want, mask=~vis, values=t, mag=mag) if fn == 'll_per_bin' else dict(scalar=want, mag=mag)
+    th, _ = oracle_theta(Mf, D)
+    if th is None or not math.isfinite(th):
+        return None
+    if fn == 'optimal_sfs_scaling':
+        return dict(scalar=th, mag=abs(th))
+    if fn == 'optimally_scaled_sfs':
+        m0v, m0m = arrs(M)
+        return dict(mask=m0m, values=th * m0v, mag=float(np.abs(th * m0v[~m0m]).max()) if (~m0m).any() else 1.0)
+    if fn in ('ll_multinom', 'll_multinom_per_bin'):
+        if th <= 0: return None
+        vis = joint & (th * mv > 0)
+        if not vis.any(): return None
+        t = np.zeros(mv.shape); t[vis] = poisson_terms(th * mv[vis], dv[vis])
+        mag = float(np.abs(t).sum())
+        return dict(scalar=float(t[vis].sum()), mag=mag) if fn == 'll_multinom' else dict(mask=~vis, values=t, mag=mag)
+    wm, v, wv = oracle_resid(fn, mv, mm, dv, dm, mk)
+    vals = np.zeros(mv.shape); vals[v] = wv
+    return dict(mask=wm, values=vals, defined=v, mag=float(np.abs(wv).max()) if v.any() else 1.0)
+
+def hist_differs(got, exp):
+    """None if the implementation's answer is what `exp` says, else a description"""
+    if 'mask' in exp:
+        gm = np.ma.getmaskarray(got)
+        if gm.shape != exp['mask'].shape or not np.array_equal(gm, exp['mask']):
+            k = int(np.nonzero((gm != exp['mask']).ravel())[0][0]) if gm.shape == exp['mask'].shape else -1
+            return 'mask differs (first at flat index %d: got %s)' % (k, bool(gm.ravel()[k]) if k >= 0 else '?')
+        v = exp.get('defined', ~exp['mask'])
+        if v.any() and not np.allclose(np.ma.getdata(got)[v], exp['values'][v], rtol=1e-9, atol=1e-9 * max(exp['mag'], 1e-300)):
+            return 'values differ by %.3g' % float(np.max(np.abs(np.ma.getdata(got)[v] - exp['values'][v])))
+        return None
+    if got is np.ma.masked or not math.isfinite(float(got)):
+        return 'returned %r, expected %r' % (got, exp['scalar'])
+    if not near(float(got), exp['scalar'], 1e-9 * exp['mag']):
+        return 'returned %r, expected %r' % (float(got), exp['scalar'])
+    return None
+
+def hist_call(I, fn, M, D, mk):
+    f = getattr(I, fn)
+    if fn.endswith('residual'):
+        return call(f, M, D, mask=mk)
+    return call(f, M, D)
+
+def k_hist(chk, ctx, fn, M, D, mk, r, e, exps, inp):
+    """K for one evaluation of a sequence: the answer obtained on the live objects vs the model on their current contents"""
+    drv = ctx['driver']
+    if drv is None or not drv.ok():
+        return
+    mod = Model(drv, dict(M=M, D=D))
+    op = 'history:' + fn
+    j = lambda out, kind, atol=None: k_judge(chk, inp, op, r, e, out, kind, atol)
+    if fn in ('ll', 'll_multinom'):
+        pb = mod.ll_op('lik_ll_per_bin' if fn == 'll' else 'lik_ll_multinom_per_bin')
+        mag = 1.0
+        if pb.startswith('ok '):
+            mag = sum(abs(float(c)) for c in parse_cells(pb[3:]) if c is not None and c != 'nf') or 1.0
+        j(mod.ll_op('lik_' + fn), 'scalar', 1e-9 * mag + 1e-12)
+    elif fn in ('ll_per_bin', 'll_multinom_per_bin'):
+        j(mod.ll_op('lik_' + fn), 'cells')
+    elif fn == 'optimal_sfs_scaling':
+        thabs = abs(float(r)) if (r is not None and r is not np.ma.masked and math.isfinite(float(r))) else 1.0
+        j(mod.simple('lik_theta'), 'scalar', 1e-9 * thabs)
+    elif fn == 'optimally_scaled_sfs':
+        j(mod.simple('lik_scaled'), 'scaled')
+    elif fn == 'linear_Poisson_residual':
+        j(mod.linres(mk), 'cells')
+    else:
+        j(mod.anscombe(mk, exps), 'cells')
+
+def run_history(chk, ctx, seq, exps):
+    dadi = ctx['dadi']; I = dadi.Inference
+    sh = tuple(seq['shape'])
+    arr = lambda k: np.array(seq[k], dtype=float).reshape(sh)
+    msk = lambda k: np.array(seq[k], dtype=bool).reshape(sh)
+    M = mk_spec(dadi, arr('model'), msk('model_mask'))
+    Ds = [mk_spec(dadi, arr('data'), msk('data_mask')), mk_spec(dadi, arr('data2'), msk('data2_mask'))]
+    if seq.get('data_folded'):
+        Ds = [d.fold() for d in Ds]
+    mk = seq.get('resid_mask')
+    active = 0
+    chk.stat('history:sequences')
+    for n, st in enumerate(seq['steps']):
+        active = apply_edit(st, M, Ds, active)
+        D = Ds[active]
+        fn = st['fn']
+        # snapshot of what the objects contain now (replay / message), before the call
+        before = (np.array(M.data, copy=True), np.ma.getmaskarray(M).copy(), np.array(D.data, copy=True), np.ma.getmaskarray(D).copy())
+        exp = hist_expect(dadi, fn, M, D, mk)
+        r, e = hist_call(I, fn, M, D, mk)
+        chk.l3(('history', fn, st['edit'], len(sh), bool(D.folded)))
+        chk.stat('history:edit:' + st['edit']); chk.stat('history:fn:' + fn)
+        where = 'step %d of the sequence (after in-place edit `%s`, entry %d)' % (n, st['edit'], st['idx'])
+        if exp is None:
+            chk.stat('history:degenerate-step')
+        elif e is not None:
+            _fail(chk, 'history:%s:raises:%s' % (fn, type(e).__name__), '%s raises %r at %s' % (fn, e, where), seq)
+        else:
+            bad = hist_differs(r, exp)
+            if bad is not None:
+                _fail(chk, 'history:%s:stale' % fn, '%s on objects used before: %s at %s -- not what the current contents of model/data give'
+                      % (fn, bad, where), seq)
+        if exp is not None:
+            k_hist(chk, ctx, fn, M, D, mk, r, e, exps, dict(seq, at_step=n))
+        if not (np.array_equal(before[0], np.asarray(M.data), equal_nan=True) and np.array_equal(before[1], np.ma.getmaskarray(M))
+                and np.array_equal(before[2], np.asarray(D.data), equal_nan=True) and np.array_equal(before[3], np.ma.getmaskarray(D))):
+            _fail(chk, 'history:inputs-modified', '%s changed its arguments at %s' % (fn, where), seq)
+        if st.get('also_copies') and exp is not None and e is None:
+            # the same call on fresh deep copies must give the same answer (done AFTER the live call; it may refresh hidden state,
+            # which is why only a quarter of the steps do it)
+            M2 = mk_spec(dadi, np.array(M.data, copy=True), np.ma.getmaskarray(M).copy(), M.folded)
+            D2 = mk_spec(dadi, np.array(D.data, copy=True), np.ma.getmaskarray(D).copy(), D.folded)
+            r2, e2 = hist_call(I, fn, M2, D2, mk)
+            chk.l3(('history-copies', fn))
+            same = e2 is None and np.array_equal(np.ma.getmaskarray(r), np.ma.getmaskarray(r2)) and \
+                np.allclose(np.ma.filled(r, 0.), np.ma.filled(r2, 0.), rtol=1e-12, atol=0, equal_nan=True)
+            if not same:
+                _fail(chk, 'history:%s:copies-differ' % fn, '%s(model, data) differs from %s(copy of model, copy of data) at %s'
+                      % (fn, fn, where), seq)
+
 # ------------------------------------------------------------------ generators
 SHAPES_Q = {1: (3, 14), 2: (3, 6), 3: (3, 4)}
 SHAPES_T = {1: (3, 30), 2: (3, 9), 3: (3, 5)}
@@ -530,7 +758,10 @@ def run(chk, ctx):
                 'tiny model, non-positive model entries, identical masks, everything masked; independent random masks (density 0/0.1/0.3) with '
                 'corners masked (70%) or visible; data folded via Spectrum.fold() in 30% (model then unfolded 75% / folded 25%); folded model '
                 'vs unfolded data (rejected) 4%; residual mask None/0/positive; plus 8 fixed edge cases.  non-trivial = distinct (ndim, folded, '
-                'kind, model>0 on the joint set, masks equal, corner class, zeros in data, which clause).')
+                'kind, model>0 on the joint set, masks equal, corner class, zeros in data, which clause).  History: 18 fixed + 40 (600 thorough) '
+                'random sequences of 5-15 evaluations on the SAME model/data objects (all 8 entry points mixed) with an in-place edit before each '
+                '(data/model mask set or cleared, count changed via __setitem__ / .data / *=, switch between two data objects); every evaluation vs the '
+                'oracle on the current contents, 25% also vs the same call on deep copies, and vs the Lean model (K).')
     chk.unproved = [
         'log, gammaln, sqrt and the fractional powers enter the model as tables of numbers computed by libm/scipy at the exact rational arguments: '
         'that numpy\'s log/gammaln/power are the real functions (to 1e-9) is validated numerically, not proved',
@@ -547,11 +778,19 @@ def run(chk, ctx):
     for it in range(n):
         c = gen_case(dadi, rng, tier)
         run_case(chk, ctx, c, rng, exps)
+    # state carried between calls: sequences on the same objects with in-place edits
+    hrng = common.Rng(ctx['seed'], 'C11/history')
+    for seq in fixed_histories():
+        run_history(chk, ctx, seq, exps)
+    for it in range(40 if tier == 'quick' else 600):
+        run_history(chk, ctx, gen_history(hrng, tier), exps)
 
 def replay(chk, ctx, data):
     inp = data.get('input') or {}
     rng = common.Rng(ctx['seed'], 'C11')
-    if 'model' in inp:
+    if inp.get('kind') == 'history' and 'steps' in inp:
+        run_history(chk, ctx, inp, exponents(ctx))
+    elif 'model' in inp:
         c = from_small(ctx['dadi'], inp)
         run_case(chk, ctx, c, rng, exponents(ctx))
     else:
